@@ -23,6 +23,7 @@ const (
 	rStopWait
 	rGetPID
 	rSend
+	rRequest // Engine.Request + Result (nobody answers): registers and removes a temporary response process
 )
 
 type regIn struct {
@@ -104,6 +105,12 @@ func runRegistry(withStops bool) func(rc *core.RunCtx) {
 			// separator in between: they are different actors all the same
 			ids = append(ids, []string{"reg/i1", "reg/i10", "reg/i1/x"}[i])
 		}
+		if g.Bool(0.2) {
+			// an application actor whose id looks like the ids the engine makes up
+			// for the temporary response processes of Request
+			ids[len(ids)-1] = fmt.Sprintf("response/%d", g.Range(1, 3))
+		}
+		slowStopped := g.Pick(2, 1, 1) // yields inside Stopped: a shutdown that takes a while
 		ntasks := 2 + g.Pick(3, 3, 2)
 		maxOps := 6
 		if rc.Tier == "thorough" {
@@ -115,7 +122,7 @@ func runRegistry(withStops bool) func(rc *core.RunCtx) {
 			n := g.Range(1, maxOps)
 			for i := 0; i < n; i++ {
 				id := ids[g.IntN(len(ids))]
-				k := g.Pick(5, 2, 3, 3)
+				k := g.Pick(5, 2, 3, 3, 1)
 				if !withStops && k == rStopWait {
 					k = rSpawn
 				}
@@ -143,6 +150,8 @@ func runRegistry(withStops bool) func(rc *core.RunCtx) {
 					fmt.Fprintf(&sb, "GetPID(%s) ", o.id)
 				case rSend:
 					fmt.Fprintf(&sb, "Send(%s,%s) ", o.id, o.msg)
+				case rRequest:
+					fmt.Fprintf(&sb, "Request(%s).Result() ", o.id)
 				}
 			}
 			rc.Scen("task t%d: %s", t, sb.String())
@@ -167,7 +176,7 @@ func runRegistry(withStops bool) func(rc *core.RunCtx) {
 					simrt.Yield(simrt.OpUser)
 					switch o.op {
 					case rSpawn:
-						sp := &Spec{Kind: kindOf(o.id), ID: idOf(o.id), MaxRestarts: 1, InboxSize: 4, PanicInit: map[int]bool{}, PanicStarted: map[int]bool{}, PanicStopped: map[int]bool{}}
+						sp := &Spec{Kind: kindOf(o.id), ID: idOf(o.id), MaxRestarts: 1, InboxSize: 4, SlowStopped: slowStopped, PanicInit: map[int]bool{}, PanicStarted: map[int]bool{}, PanicStopped: map[int]bool{}}
 						before := len(env.byID[o.id])
 						prodBefore := 0
 						for _, in := range env.byID[o.id] {
@@ -216,6 +225,10 @@ func runRegistry(withStops bool) func(rc *core.RunCtx) {
 						}
 					case rSend:
 						env.Send(fmt.Sprintf("t%d", t), o.id, o.msg, nil)
+					case rRequest:
+						// nobody answers: Result returns after the timeout and removes "its" process
+						resp := env.E.Request(actor.NewPID("local", o.id), env.NewMsg(fmt.Sprintf("req-t%d", t), 0), time.Millisecond)
+						resp.Result()
 					}
 				}
 				finished++
@@ -317,6 +330,46 @@ func runRegistry(withStops bool) func(rc *core.RunCtx) {
 				if len(insts) > 1 {
 					rc.Violate2(own, "producer-calls", "%s: %d process instances without any stop", id, len(insts))
 				}
+			}
+		}
+		// final phase (quiescent): an actor that was started and never told to
+		// stop is alive - it is registered and gets what is sent to it, whatever
+		// happened to earlier actors under its id
+		for _, id := range ids {
+			insts := env.byID[id]
+			if len(insts) == 0 {
+				continue
+			}
+			last := insts[len(insts)-1]
+			aliveNow := len(last.Incs) > 0
+			for _, inc := range last.Incs {
+				for _, d := range inc {
+					if d.Kind == dStopped {
+						aliveNow = false
+					}
+				}
+			}
+			if !aliveNow {
+				continue
+			}
+			if env.E.Registry.GetPID(kindOf(id), idOf(id)) == nil {
+				rc.Violate2(own, "live-actor-unregistered", "%s: the latest actor spawned under this id was started and never stopped, but GetPID returns nil", id)
+				rc.Violate2("C01", "live-actor-unreachable", "%s: the latest actor spawned under this id was started and never stopped, but it is not registered: whatever is sent to it dead-letters", id)
+				continue
+			}
+			fm := []*UMsg{env.NewMsg("final", 0), env.NewMsg("final", 1)}
+			for _, m := range fm {
+				env.Send("final", id, m, nil)
+			}
+			simrt.WaitQuiet(time.Hour)
+			got := 0
+			for _, d := range env.userDeliveries(id) {
+				if d.Msg == fm[0] || d.Msg == fm[1] {
+					got++
+				}
+			}
+			if got != 2 {
+				rc.Violate2("C01", "message-to-live-actor-not-delivered", "%s is alive and registered; %d of 2 messages sent to it at the end were delivered", id, got)
 			}
 		}
 		rc.Nontrivial = len(hist) > 2
@@ -527,9 +580,47 @@ func runRegChildren(rc *core.RunCtx) {
 			rc.Violate2("C08", "Children-mismatch/respawned-children", "%s: Children()=%v, registered children=%v", parent.FullID(), got, alive)
 		}
 	}
+	// somebody else takes over the id of a child as soon as the child has left
+	// the registry (a top-level Spawn under the same kind and id), while the
+	// parent is still shutting down: that actor is nobody's child
+	respawnID, respawnWon := "", false
+	if len(alive) > 0 && g.Bool(0.5) {
+		respawnID = alive[g.IntN(len(alive))]
+		rc.Scen("while %s shuts down, a task spawns a top-level actor under %s as soon as that id is free", parent.FullID(), respawnID)
+		sp := &Spec{Kind: kindOf(respawnID), ID: idOf(respawnID), MaxRestarts: 1, InboxSize: 4, PanicInit: map[int]bool{}, PanicStarted: map[int]bool{}, PanicStopped: map[int]bool{}}
+		simrt.Go("respawner", func() {
+			for i := 0; i < 3000 && env.E.Registry.GetPID(sp.Kind, sp.ID) != nil; i++ {
+				simrt.Yield(simrt.OpUser)
+			}
+			prod := env.producer(sp, "")
+			env.E.Spawn(func() actor.Receiver { respawnWon = true; return prod() }, sp.Kind, env.opts(sp)...)
+		})
+	}
 	simrt.Recv(env.E.Poison(actor.NewPID("local", parent.FullID())).Done())
 	simrt.WaitQuiet(time.Hour)
+	if respawnWon && env.E.Registry.GetPID(kindOf(respawnID), idOf(respawnID)) == nil {
+		rc.Violate2(own, "live-actor-unregistered/respawn-during-parent-shutdown", "%s: a top-level actor was spawned under this id after the child had left the registry; nobody stopped it, yet it is not registered any more", respawnID)
+	}
 	for _, id := range ids {
+		if id == respawnID && respawnWon {
+			// the id belongs to the new top-level actor now; the children that ran
+			// under it before must all be gone
+			insts := env.byID[id]
+			for k, in := range insts[:len(insts)-1] {
+				stopped := false
+				if n := len(in.Incs); n > 0 {
+					for _, d := range in.Incs[n-1] {
+						if d.Kind == dStopped {
+							stopped = true
+						}
+					}
+				}
+				if !stopped {
+					rc.Violate2("C08", "child-not-stopped/respawned-children", "%s is stopped, but actor #%d spawned under its child id %s never handled Stopped", parent.FullID(), k+1, id)
+				}
+			}
+			continue
+		}
 		if env.E.Registry.GetPID(kindOf(id), idOf(id)) != nil {
 			rc.Violate2("C08", "child-still-registered/respawned-children", "%s is stopped but its child %s is still registered", parent.FullID(), id)
 		}
@@ -563,6 +654,8 @@ func init() {
 	base := "one real Engine; 2-4 tasks doing Spawn / stop-and-wait / GetPID / Send over a pool of 1-3 ids; each operation stamped call/return with a global event counter; "
 	core.Register(&core.Profile{Property: "C10", Name: "registry", Weight: 3, Cfg: cfgEngine, Run: runRegistry(true),
 		Doc: base + "oracle: porcupine linearizability against 'set of registered ids' (Spawn wins iff absent, StopAndWait removes, GetPID reads), Producer runs once per winning spawn and never for a loser, one ActorDuplicateIdEvent per losing spawn, successive actors under one id never overlap"})
+	core.Register(&core.Profile{Property: "C01", Name: "engine-respawn", Weight: 1, Cfg: cfgEngine, Run: runRegistry(true),
+		Doc: base + "ids spawned again after (or while) an earlier actor under the id is stopping (slow Stopped handlers); oracle for C01: at the final quiescent point every actor that was started and never stopped is registered and receives the messages sent to it"})
 	core.Register(&core.Profile{Property: "C12", Name: "duplicate-id-events", Weight: 2, Cfg: cfgEngine, Run: runRegistry(false),
 		Doc: base + "oracle for C12: exactly one ActorDuplicateIdEvent per losing spawn, however the spawns race"})
 	core.Register(&core.Profile{Property: "C10", Name: "duplicates", Weight: 2, Cfg: cfgEngine, Run: runRegistry(false),
